@@ -26,6 +26,7 @@ func init() {
 const mz = "mod/modzip."
 
 func checkC15(c *Ctx) {
+	c15FoldFixpoint(c)
 	// errcheck-style baseline: a newly discarded error in the package is a dropped protocol/validation step
 	c.checkErrorDiscipline("errors.no-new-dropped-error", "mod/modzip", map[string]string{
 		"Unzip|os.ReadDir": "a directory that cannot be listed is treated as empty; creation then fails with O_EXCL if it is not",
@@ -982,4 +983,60 @@ func c15PathChain(c *Ctx) {
 	})
 	c.check("pathchain.gate", e.Name+"/windows-reserved", e.Body.Pos(), overBad && r.found && !r.leak,
 		"checkElem must reject Windows reserved names (loop over badWindowsNames with EqualFold)")
+}
+
+// c15FoldFixpoint: case-insensitive collisions are detected on a canonical
+// folding of the name. unicode.SimpleFold moves to the *next* rune of the fold
+// orbit, so the canonical representative (the minimum) needs the fold to be
+// iterated until it wraps; orbits have up to four members (K, k, KELVIN SIGN).
+// A single step maps two colliding names to different keys.
+func c15FoldFixpoint(c *Ctx) {
+	f := c.fn("mod/modzip", "strToFold")
+	g := c.graph(f)
+	folds := g.callNodes("unicode.SimpleFold")
+	// the per-rune loop: the range statement whose body contains the fold
+	head, _, _ := g.rangeLoop(func(rs *ast.RangeStmt) bool {
+		has := false
+		ast.Inspect(rs.Body, func(n ast.Node) bool {
+			if call, ok := n.(*ast.CallExpr); ok && calleeName(f.Info(), call) == "unicode.SimpleFold" {
+				has = true
+			}
+			return true
+		})
+		return has
+	})
+	ok := len(folds) > 0 && head >= 0
+	for id := range folds {
+		// the fold lies on a cycle that does not pass the per-rune loop head: an inner loop
+		onCycle := false
+		for _, e := range g.Nodes[id].Succs {
+			if e.To == head {
+				continue
+			}
+			r := g.reach([]int{e.To}, func(n int) bool { return n == head }, nil)
+			if e.To == id || (r[id] && e.To != id) {
+				onCycle = true
+			}
+		}
+		if !onCycle {
+			ok = false
+		}
+	}
+	// the inner loop is left only on the wrap-around test (result not greater than the argument)
+	wrap := false
+	ast.Inspect(f.Body, func(n ast.Node) bool {
+		if be, isBin := n.(*ast.BinaryExpr); isBin {
+			switch be.Op.String() {
+			case "<=", ">=", "<", ">":
+				if _, a := be.X.(*ast.Ident); a {
+					if _, b := be.Y.(*ast.Ident); b {
+						wrap = true
+					}
+				}
+			}
+		}
+		return true
+	})
+	c.check("collision.fold-iterated-to-fixpoint", f.Name, f.Decl.Pos(), ok && wrap,
+		"strToFold must iterate unicode.SimpleFold in an inner loop until it wraps around (minimum of the fold orbit); a single step gives colliding names different keys")
 }
